@@ -45,6 +45,26 @@ def generate(gen, tier):
             lines.append(op('replace_nones', cfg, t))
         cases.append({'lines': lines, 'o': {'cfg': render(cfg), 'tree': render(t), 'rests': [render(r) for r in rests],
                                             'near': bad}})
+    # a class registered in the requested namespace only, reachable only through a dict-kind node (or directly), with rests:
+    # every variant has to match the rests in that namespace
+    for ns, c in (('a', 2), ('b', 4)):
+        for wrap in ('D', 'O', 'DD', 'l', 'none'):
+            for nrest in (1, 2):
+                node = [A('U'), c, gen.md(), A('ok'), gen.leaf(0), [A('T'), gen.leaf(0), A('N')]]
+                if wrap == 'none':
+                    t = node
+                elif wrap == 'l':
+                    t = [A('l'), gen.leaf(0), node]
+                elif wrap == 'DD':
+                    t = [A('DD'), 1, [[A('s'), 'k'], node], [[A('s'), 'j'], gen.leaf(0)]]
+                else:
+                    t = [A(wrap), [[A('s'), 'k'], node], [[A('s'), 'j'], gen.leaf(0)]]
+                cfg = gen.cfg(ns=ns, pred=0)
+                rests = [substitute_leaves(gen, relabel_leaves(gen, t), 0.3, 1) for _ in range(nrest)]
+                lines = [op('map', A(v), A('1' if ip else '0'), cfg, rng.choice([0, 1, 2]), t, *rests)
+                         for v in ('plain', 'path', 'acc') for ip in (False, True)]
+                cases.append({'lines': lines, 'o': {'cfg': render(cfg), 'tree': render(t), 'rests': [render(r) for r in rests],
+                                                    'near': False}})
     return cases
 
 
